@@ -60,7 +60,17 @@ def _texts():
     # characters outside ASCII in columns the program does not read (a no-break space in column 21, an accented remark)
     nonascii = 'REMARK   1 r\u00e9sum\u00e9 \u2032\n' + ''.join((ln[:20] + '\u00a0' + ln[21:]) if ln.startswith('ATOM') and k % 3 == 0 else ln
                                                             for k, ln in enumerate(pair.splitlines(True)))
-    return dict(tri=tri, cut=cut, unk=unk, clu=clu, clu2=clu2, pair=pair, nterm=nterm, mpo=mpo, nonascii=nonascii,
+    # two models, the first of which lacks four chains of the second
+    def chain_copy(ch, k):
+        c = lib.window('3SGB', 'I', 26, 3)
+        for a in c.atoms:
+            a.chain = ch
+        return c.translate((40000 * k, 0, 0))
+    later = gen.S(['MODEL        1\n'] + chain_copy('A', 0).items + ['TER\n', 'ENDMDL\n', 'MODEL        2\n'] + [
+        it for k, ch in enumerate('ABCDE') for it in chain_copy(ch, k).items + ['TER\n']] + ['ENDMDL\n'])
+    later.renumber_serials()
+    later = gen.to_text(later)
+    return dict(tri=tri, cut=cut, unk=unk, clu=clu, clu2=clu2, pair=pair, nterm=nterm, mpo=mpo, nonascii=nonascii, later=later,
                 lig_a=tri + 'TER\n' + as_lig('NMA'), lig_b=tri + 'TER\n' + as_lig('DMA'), lig_c=tri + 'TER\n' + as_lig('ACT'))
 
 
@@ -87,6 +97,11 @@ def operations(tier):
         dict(name='zip-member-2', text='pair', opts=[], via_zip=True),
         dict(name='tune-returned-parameters', text='nterm', opts=[], tune_after=True),
         dict(name='non-ascii-characters', text='nonascii', opts=[]),
+        # option values that only shape the report (grid without window, window without grid, pH and reference state)
+        dict(name='coarse-grid', text='pair', opts=['-g', '0', '14', '2']),
+        dict(name='window-only', text='pair', opts=['-w', '2', '9', '0.5']),
+        dict(name='ph-and-reference', text='tri', opts=['-o', '3.5', '-r', 'low-pH']),
+        dict(name='chains-of-a-later-model', text='later', opts=[]),
     ]
     if tier == 'thorough':
         ops += [
